@@ -97,7 +97,7 @@ func thoroughImpl(repo, verif string, prop *Property, res *RunResult, known Know
 		opt  LoadOptions
 	}
 	variants := []variant{
-		{"tests", LoadOptions{Repo: repo, Tests: true}},
+		{"tests", LoadOptions{Repo: repo, Tests: true, NoInline: true}}, // only type-checked: the tests are not normalised
 		{"tag-verif", LoadOptions{Repo: repo, Tags: "verif"}},
 		{"GOARCH=386", LoadOptions{Repo: repo, GOARCH: "386"}},
 	}
